@@ -137,6 +137,14 @@ def part_options(S, p):
     mine = [c for k, c in enumerate(cases) if k % 4 == p["i"] % 4]
     for c in mine:
         run_case(S, c, inp, c[0], "option-bounds %s" % c[1] if len(c) > 1 else "option-bounds", "option_bounds")
+    # every short axis list (duplicates adjacent or not, out-of-range entries) on 4- and 5-axis spectra
+    for shape4 in ([2, 2, 2, 2], [2, 1, 3, 2, 2]):
+        inp4 = GS.text_spectrum(shape4, [float(x) for x in range(O.prod(shape4))], 0)
+        d4 = len(shape4)
+        seqs = [q for k in (1, 2, 3, 4) for q in itertools.product(range(d4 + 1), repeat=k)]
+        for k, q in enumerate(seqs):
+            if k % NSHARD == p["i"] and (len(q) < 4 or k % 5 == 0):
+                run_case(S, ["view", "-m" if k % 2 else "-M", ",".join(map(str, q))], inp4, "view", "option-bounds axis-list", "option_bounds")
     # create options
     cs = G.random_callset(rng, nsamples=3, nrecords=4, complete_only=True, extras=False)
     vcf = cs.to_vcf()
